@@ -822,6 +822,50 @@ def feasible(ex, seg, subst):
     return None if unknown else True
 
 
+def pair_relation(ex, seg, p, q):
+    """feasible() specialised to two positions: returns f(x, y) -> True/False/None.  Comparisons whose two sides each depend
+    on one of the positions are tabulated once per side (256 evaluations each) instead of once per pair."""
+    import operator
+    ops = {'==': operator.eq, '!=': operator.ne, '<': operator.lt, '<=': operator.le, '>': operator.gt, '>=': operator.ge}
+    tests = []
+    for (e, truth, st, loadpos) in seg.rel:
+        e0 = strip_casts(e)
+        done = False
+        if e0.get('k') == 'bin' and e0['op'] in ops:
+            dl, dr = ex.deps(e0['l'], st, loadpos), ex.deps(e0['r'], st, loadpos)
+            for (a, b, swap) in ((p, q, False), (q, p, True)):
+                if dl <= {a} and dr <= {b} and None not in dl and None not in dr:
+                    tl = [ex.ev(e0['l'], st, {a: v}, loadpos) for v in range(256)]
+                    tr = [ex.ev(e0['r'], st, {b: v}, loadpos) for v in range(256)]
+                    tests.append(('tab', ops[e0['op']], tl, tr, swap, truth))
+                    done = True
+                    break
+        if not done:
+            tests.append(('gen', e, truth, st, loadpos))
+    Bp, Bq = seg.B.get(p, ALL), seg.B.get(q, ALL)
+
+    def f(x, y):
+        if x not in Bp or y not in Bq:
+            return False
+        unknown = False
+        for t in tests:
+            if t[0] == 'tab':
+                l = t[2][y if t[4] else x]
+                r = t[3][x if t[4] else y]
+                if l is None or r is None:
+                    unknown = True
+                elif bool(t[1](l, r)) != t[5]:
+                    return False
+            else:
+                r = ex.ev(t[1], t[3], {p: x, q: y}, t[4])
+                if r is None:
+                    unknown = True
+                elif bool(r) != t[2]:
+                    return False
+        return None if unknown else True
+    return f
+
+
 def loop_segments(ex, head=None):
     return [s for s in ex.segments if s.start != 'entry' and (head is None or s.start == head)]
 
